@@ -132,6 +132,10 @@ pub const CATALOGUE: &[Entry] = &[
     e("empty_cookware_name_with_alias", "«#|zz9{}»", E::COMPONENT_ALIAS, Err_, Parse, false),
     e("zero_denominator", "@zz9{«1/0»%g}", NONE, Err_, Parse, false),
     e("zero_denominator_mixed", "@zz9{«2 1/0»}", NONE, Err_, Parse, false),
+    e("zero_denominator_in_range_end", "@zz9{1-«3/0»%l}", E::RANGE_VALUES, Err_, Parse, false),
+    e("zero_denominator_in_range_start", "@zz9{«1/0»-2}", E::RANGE_VALUES, Err_, Parse, false),
+    e("zero_denominator_mixed_in_range", "#zz9{«1 1/0» - 2}", E::RANGE_VALUES, Err_, Parse, false),
+    e("integer_too_big_in_range", "@zz9{1-«99999999999»/2}", E::RANGE_VALUES, Err_, Parse, false),
     e("empty_value", "@zz9{«%g»}", NONE, Err_, Parse, false),
     e("blank_value_after_lock", "@zz9{«= %g»}", NONE, Err_, Parse, false),
     e("blank_value_after_lock_no_unit", "@zz9{«=  »}", NONE, Err_, Parse, false),
@@ -162,10 +166,15 @@ pub const CATALOGUE: &[Entry] = &[
     e("empty_metadata_key", ">>«»: v", NONE, Err_, Parse, true),
     e("dangling_reference", "«@&zz9{}»", E::COMPONENT_MODIFIERS, Err_, Analysis, false),
     e("dangling_cookware_reference", "«#&zz9{}»", E::COMPONENT_MODIFIERS, Err_, Analysis, false),
+    // without the intermediate-preparations bit a parenthesised prefix is part of the name (see `forbidden`)
+    e("dangling_reference_parenthesised_name", "«@&(1)zz9{}»", E::COMPONENT_MODIFIERS, Err_, Analysis, false),
     e("steps_mode_undefined_ingredient", ">> [mode]: steps\nuse «@zz9{}» now\n>> [mode]: all", E::MODES, Err_, Analysis, true),
     e("steps_mode_undefined_cookware", ">> [mode]: steps\nuse «#zz9{}» now\n>> [mode]: all", E::MODES, Err_, Analysis, true),
     e("duplicate_ref_mode_conflicting_new", ">> [duplicate]: ref\n@zz9{} and @«&+»zz9{}\n>> [duplicate]: new", E::MODES.union(E::COMPONENT_MODIFIERS), Err_, Analysis, true),
     e("new_and_ref", "@zz9{} @«&+»zz9{}", E::COMPONENT_MODIFIERS, Err_, Analysis, false),
+    e("new_and_ref_with_optional", "@zz9{} @«&+?»zz9{}", E::COMPONENT_MODIFIERS, Err_, Analysis, false),
+    e("new_and_ref_with_hidden_first", "@zz9{} @«-&+»zz9{}", E::COMPONENT_MODIFIERS, Err_, Analysis, false),
+    e("new_and_ref_with_optional_cookware", "#zz9{} #«?+&»zz9{}", E::COMPONENT_MODIFIERS, Err_, Analysis, false),
     e("reference_with_foreign_modifier", "@zz9{} @«&-»zz9{}", E::COMPONENT_MODIFIERS, Err_, Analysis, false),
     e("note_on_reference", "@zz9{} @&zz9{}«(note)»", E::COMPONENT_MODIFIERS, Err_, Analysis, false),
     e("note_on_cookware_reference", "#zz9{} #&zz9«(note)»", E::COMPONENT_MODIFIERS, Err_, Analysis, false),
@@ -206,6 +215,16 @@ pub const CATALOGUE: &[Entry] = &[
     e("unnecessary_lock_on_text", "@zz9{=«some»}", NONE, Warn, Analysis, false),
     e("invalid_single_word_name", "«@»%", NONE, Warn, Parse, false),
 ];
+
+/// extension bits under which the entry's construct means something else (so the documented diagnostic is not due)
+pub fn forbidden(entry: &Entry) -> E {
+    if entry.name.starts_with("dangling_reference_parenthesised") {
+        // the bit that only INTERMEDIATE_PREPARATIONS has (it also implies COMPONENT_MODIFIERS)
+        E::INTERMEDIATE_PREPARATIONS.difference(E::COMPONENT_MODIFIERS)
+    } else {
+        E::empty()
+    }
+}
 
 /// strip the markers; returns (text, lo, hi) with the marked byte range
 pub fn unmark(t: &str) -> (String, usize, usize) {
@@ -414,7 +433,7 @@ pub fn run(ctx: &mut Ctx) {
         let level = (i % 3 + 1) as u32;
         match i % 3 {
             0 => {
-                let spec = g::gen_spec(&mut r, &GenOpts::extended());
+                let spec = g::gen_spec(&mut r, &GenOpts { text_mode_components: false, ..GenOpts::extended() });
                 let sp = g::spell(&spec, seed, feat::ALL, level);
                 if sp.expected.is_some() {
                     check_clean(ctx, &mut ps, &sp.text, E::all().bits(), "bundled", "extended/all");
@@ -480,6 +499,7 @@ pub fn run(ctx: &mut Ctx) {
             exts.push((extra | entry.needs).bits());
             // entries about a missing duration only exist without TIMER_REQUIRES_TIME and vice versa
             for ext in exts {
+                let ext = ext & !forbidden(entry).bits();
                 let ee = E::from_bits_retain(ext);
                 if entry.name == "timer_neither_name_nor_quantity" && ee.contains(E::TIMER_REQUIRES_TIME) {
                     continue;
